@@ -258,4 +258,8 @@ def build(E):
         spec.event_contracts = {}
     spec.event_contracts[f"{CL}.__init__"] = c_init
     spec.targets = list(spec.targets) + [(f"{CL}.__init__", None)]
+    # "and verifies the certificate pin on every hop": every hop is one _get_single call (contract above: connections are opened
+    # only there), and _get_single's own contract - the C03 clauses: a response only for an absent or equal pin, whatever this
+    # client object did before - is verified here as well, in an engine of its own
+    spec.subs = list(getattr(spec, "subs", [])) + [client_session.as_sub("C16", "C03")]
     return spec
